@@ -9,7 +9,7 @@ export GOFLAGS=-mod=mod GOPROXY=off GOSUMDB=off GOTOOLCHAIN=local
 W=$(mktemp -d /tmp/mut.XXXXXX)
 trap 'git -C /repo worktree remove --force "$W/wt" >/dev/null 2>&1; rm -rf "$W"' EXIT
 git -C /repo worktree add -q --detach "$W/wt" HEAD || exit 2
-if ! git -C "$W/wt" apply "$PATCH" 2>"$W/apply.err"; then echo "MUTANT $(basename $PATCH): patch does not apply: $(cat $W/apply.err)"; exit 2; fi
+if ! git -C "$W/wt" apply "$PATCH" 2>"$W/apply.err" && ! git -C "$W/wt" apply --3way "$PATCH" 2>>"$W/apply.err"; then echo "MUTANT $(basename $PATCH): patch does not apply: $(cat $W/apply.err)"; exit 2; fi
 if ! (cd "$W/wt" && go build ./... ) >/dev/null 2>&1; then echo "MUTANT $(basename $PATCH): does not compile"; exit 2; fi
 SUITE=pass
 (cd "$W/wt" && GOFLAGS= go test -count=1 ./... >"$W/suite.log" 2>&1) || SUITE=FAIL
